@@ -4,6 +4,8 @@ import (
 	"fmt"
 	"sort"
 	"strings"
+
+	"github.com/go-spatial/geom"
 )
 
 // The snapping family: C01, C03, C04, C05, C06, C07, C08, C09, C18 share the `snap` correspondence stream
@@ -92,6 +94,9 @@ func (e *env) runSnap(o snapOpts) {
 		results := make([]*snapResult, len(cases))
 		ops := make([]string, len(cases))
 		for i, c := range cases {
+			if e.rng.Intn(6) == 0 {
+				e.poison(c)
+			}
 			results[i] = c.runImpl()
 			ops[i] = c.op()
 		}
@@ -147,6 +152,34 @@ func (e *env) runSnap(o snapOpts) {
 				o.hook(c, sr, chains)
 			}
 		}
+	}
+}
+
+// poison: before some cases the same tile matrix set is asked to snap a polygon that leaves the grid after a few inside vertices
+// (skipped with ignore-outside-grid, or panicking without it): whatever that call leaves behind must not influence the next one
+func (e *env) poison(c *snapCase) {
+	g := c.grid()
+	size := int64(1) << g.depth
+	pc := *c
+	pc.cfg.IgnoreOutsideGrid = e.rng.Intn(3) > 0
+	poly := make(geom.Polygon, len(c.poly))
+	for i := range c.poly {
+		poly[i] = append([][2]float64{}, c.poly[i]...)
+	}
+	if len(poly) == 0 || len(poly[0]) < 2 {
+		return
+	}
+	out := [2]float64{float64(g.minX+size*g.res)/1e10 + 10, float64(g.minY+size*g.res)/1e10 + 10}
+	poly[len(poly)-1][len(poly[len(poly)-1])-1] = out
+	pc.setPoly(poly)
+	sr := pc.runImpl()
+	e.res.Dist["snap:preceded-by-an-outside-grid-call"]++
+	want := "panic outside-grid"
+	if pc.cfg.IgnoreOutsideGrid {
+		want = "ok "
+	}
+	if got := sr.String(); got != want {
+		e.snapViolation("outside-grid-rejected", &pc, sr, "expected "+want, "")
 	}
 }
 
